@@ -4,7 +4,8 @@
    dle on decimals (Go's Cmp is only *compatible* with it: C02_cmp_compatible). *)
 From DS Require Import Base Decimal StreamValue Sort Aggregators.
 From DS Require Import RankMedian DecimalProofs AggregatorProofs.
-From DS Require Outcome StepTheorems.
+From DS Require Outcome StepTheorems OutcomeAggRange NvHistory.
+From stdpp Require gmap.
 
 (* numeric order is a total preorder; Go's Cmp agrees with it on numerically different values *)
 Theorem C02_numeric_order : (forall a, dle a a) /\ (forall a b c, dle a b -> dle b c -> dle a c) /\ (forall a b, dle a b \/ dle b a).
@@ -72,6 +73,51 @@ Theorem C02_outcome_timestamp_in_honest_range : forall h cf seq prev (taos : lis
                 lo <= Outcome.o_ts next <= hi.
 Proof. exact StepTheorems.outcome_timestamp_in_honest_range. Qed.
 Print Assumptions C02_outcome_timestamp_in_honest_range.
+
+(* the same for the values: a Decimal the new outcome holds for a (stream, median) pair lies between two values that
+   correct observers of this round reported for that stream (accepted_vals: the stream's values in the accepted
+   observations, tagged honest/faulty), and a Quote held for a (stream, quote) pair is ordered with its benchmark in the
+   correct observers' range *)
+Theorem C02_outcome_median_in_honest_range : forall h cf seq prev (taos : list (option Outcome.observation * bool)) next sid d T,
+  1 < seq -> Outcome.outcome_step h cf seq prev (map fst taos) = Ok next ->
+  base.lookup (sid, 1) (Outcome.o_aggs next) = Some (SDec d) ->
+  (T = 0 \/ T = 1) -> honest_type T (OutcomeAggRange.accepted_vals taos sid) ->
+  (fpres (OutcomeAggRange.accepted_vals taos sid) < hpres (OutcomeAggRange.accepted_vals taos sid))%nat ->
+  exists lo hi xl xh, In (Some xl, true) (OutcomeAggRange.accepted_vals taos sid) /\
+                      In (Some xh, true) (OutcomeAggRange.accepted_vals taos sid) /\
+                      In lo (num_of xl) /\ In hi (num_of xh) /\ dle lo d /\ dle d hi.
+Proof. exact OutcomeAggRange.outcome_median_in_honest_range. Qed.
+Print Assumptions C02_outcome_median_in_honest_range.
+
+Theorem C02_outcome_quote_in_honest_range : forall h cf seq prev (taos : list (option Outcome.observation * bool)) next sid bid bm ask,
+  1 < seq -> Outcome.outcome_step h cf seq prev (map fst taos) = Ok next ->
+  base.lookup (sid, 3) (Outcome.o_aggs next) = Some (SQuote bid bm ask) ->
+  honest_quote (OutcomeAggRange.accepted_vals taos sid) ->
+  (fpres (OutcomeAggRange.accepted_vals taos sid) < hpres (OutcomeAggRange.accepted_vals taos sid))%nat ->
+  dle bid bm /\ dle bm ask /\
+  (exists l hh, In (Some l, true) (OutcomeAggRange.accepted_vals taos sid) /\ In (Some hh, true) (OutcomeAggRange.accepted_vals taos sid) /\
+                (exists a b c, l = SQuote a b c /\ dle b bm) /\ (exists a b c, hh = SQuote a b c /\ dle bm b)).
+Proof. exact OutcomeAggRange.outcome_quote_in_honest_range. Qed.
+Print Assumptions C02_outcome_quote_in_honest_range.
+
+(* non-vacuity at the outcome level: predecessor NvHistory.p2 defines channel 7 over (stream 3, median); three correct
+   observers report 10, 12, 11 and a faulty one 10^30; the new outcome holds 12 for (3, median) *)
+Definition C02_nv_ob (v : sval) : option Outcome.observation :=
+  Some {| Outcome.ob_att := Outcome.NoAttest; Outcome.ob_retire := false; Outcome.ob_ts := 12 * NvHistory.s;
+          Outcome.ob_removes := []; Outcome.ob_updates := base.empty; Outcome.ob_values := base.singletonM 3 v |}.
+Definition C02_nv_taos : list (option Outcome.observation * bool) :=
+  [ (C02_nv_ob (SDec (mkdec 10 0)), true); (C02_nv_ob (SDec (mkdec 1 30)), false);
+    (C02_nv_ob (SDec (mkdec 12 0)), true); (C02_nv_ob (SDec (mkdec 11 0)), true) ].
+Example C02_nv_outcome :
+  match Outcome.outcome_step NvHistory.nv_h NvHistory.nv_cf 3 NvHistory.p2 (map fst C02_nv_taos) with
+  | Ok next => base.lookup (3, 1) (Outcome.o_aggs next) = Some (SDec (mkdec 12 0))
+  | _ => False end /\
+  honest_type 0 (OutcomeAggRange.accepted_vals C02_nv_taos 3) /\
+  (fpres (OutcomeAggRange.accepted_vals C02_nv_taos 3) < hpres (OutcomeAggRange.accepted_vals C02_nv_taos 3))%nat.
+Proof.
+  split; [vm_compute; reflexivity|]. split; [|vm_compute; lia].
+  intros x H. vm_compute in H. destruct H as [H|[H|[H|[H|[]]]]]; inversion H; reflexivity.
+Qed.
 
 (* non-vacuity: f = 1, honest {10.0, 1e1, 12}, faulty {Quote(-5, 10^30, 10^31)} *)
 Definition C02_nv_vals : list (option sval * bool) :=
